@@ -2,4 +2,5 @@ SPECIFICATION Spec
 INVARIANT Stable
 INVARIANT ConsoleLines
 INVARIANT Watch
+INVARIANT OldExposed
 CHECK_DEADLOCK FALSE
